@@ -248,14 +248,14 @@ impl Model {
                     req: Req::Id(item.id.clone()),
                 }
             }
-            By::Handle => {
+            By::Handle | By::Temp => {
                 let uid = self
                     .resources
                     .iter()
                     .position(|x| x.live && x.handle == item.handle);
                 Target {
                     uid,
-                    req: Req::Handle(item.handle),
+                    req: if r.by == By::Temp { Req::Id(format!("!R{}", item.handle)) } else { Req::Handle(item.handle) },
                 }
             }
         }
@@ -272,12 +272,12 @@ impl Model {
                 uid: self.find_dataset_by_id(&item.id),
                 req: Req::Id(item.id.clone()),
             },
-            By::Handle => Target {
+            By::Handle | By::Temp => Target {
                 uid: self
                     .datasets
                     .iter()
                     .position(|x| x.live && x.handle == item.handle),
-                req: Req::Handle(item.handle),
+                req: if r.by == By::Temp { Req::Id(format!("!S{}", item.handle)) } else { Req::Handle(item.handle) },
             },
         }
     }
@@ -298,7 +298,7 @@ impl Model {
                     .annotations
                     .iter()
                     .position(|x| x.live && x.handle == item.handle),
-                req: Req::Handle(item.handle),
+                req: if r.by == By::Temp { Req::Id(format!("!A{}", item.handle)) } else { Req::Handle(item.handle) },
             },
         }
     }
@@ -316,12 +316,12 @@ impl Model {
                 uid: s.keys.iter().position(|k| k.live && k.id == item.id),
                 req: Req::Id(item.id.clone()),
             },
-            By::Handle => Target {
+            By::Handle | By::Temp => Target {
                 uid: s
                     .keys
                     .iter()
                     .position(|k| k.live && k.handle == item.handle),
-                req: Req::Handle(item.handle),
+                req: if r.by == By::Temp { Req::Id(format!("!K{}", item.handle)) } else { Req::Handle(item.handle) },
             },
         }
     }
@@ -346,7 +346,7 @@ impl Model {
                     .data
                     .iter()
                     .position(|d| d.live && d.handle == item.handle),
-                req: Req::Handle(item.handle),
+                req: if r.by == By::Temp { Req::Id(format!("!D{}", item.handle)) } else { Req::Handle(item.handle) },
             },
         }
     }
@@ -1094,8 +1094,8 @@ impl Model {
             match self.apply_dataspec(spec, fx)? {
                 Some(sd) => {
                     if mdata.contains(&sd) {
-                        // unspecified: the same data item twice on one annotation
-                        return Ok(None);
+                        // the same data item offered twice: the annotation carries it once
+                        continue;
                     }
                     mdata.push(sd)
                 }
@@ -1339,6 +1339,10 @@ fn ghost(r: &Ref) -> Target {
         By::Handle => Target {
             uid: None,
             req: Req::Handle(GHOST_HANDLE),
+        },
+        By::Temp => Target {
+            uid: None,
+            req: Req::Id(format!("!A{}", GHOST_HANDLE)),
         },
     }
 }
